@@ -4,6 +4,7 @@ package drive
 
 import (
 	"context"
+	"errors"
 	"fmt"
 	"io"
 	"net/http"
@@ -168,8 +169,16 @@ type ScriptReader struct {
 	pos, ci     int
 }
 
+// ErrSpin ends a caller that keeps calling Read without making progress: after 2^21 calls
+// (far beyond what any body of the sizes used here needs) every further Read fails, so that
+// a spinning serving goroutine terminates and the read-count oracles see it.
+var ErrSpin = errors.New("verif: reader called 2^21 times - the caller spins")
+
 func (s *ScriptReader) Read(p []byte) (int, error) {
 	s.Reads++
+	if s.Reads > 1<<21 {
+		return 0, ErrSpin
+	}
 	term := s.Err
 	if term == nil {
 		term = io.EOF
